@@ -211,6 +211,30 @@ pub fn parse_addrspan(text: &str, radix: u32) -> (Vec<AddrRow>, Vec<String>) {
 }
 
 /// `symbols`: `name = 0x<hex>` per line (hierarchical names joined with `.`).
+/// negative values of a symbols listing (`n = 0x-5`, `n = -0x5`, `n = -5`), which `parse_symbols` leaves aside
+pub fn parse_negative_symbols(text: &str) -> Vec<(String, i128)> {
+    let mut v = vec![];
+    for line in text.split('\n') {
+        let t = trim_ascii(line);
+        let Some((n, val)) = t.split_once('=') else { continue };
+        let val = trim_ascii(val);
+        if !val.contains('-') {
+            continue;
+        }
+        let digits = val.replace('-', "");
+        let parsed = match digits.strip_prefix("0x") {
+            Some(h) => i128::from_str_radix(h, 16).ok(),
+            None => digits.parse::<i128>().ok(),
+        };
+        if let Some(x) = parsed {
+            if val.matches('-').count() == 1 {
+                v.push((trim_ascii(n).to_string(), -x));
+            }
+        }
+    }
+    v
+}
+
 pub fn parse_symbols(text: &str) -> (Vec<(String, u64)>, Vec<String>) {
     let mut v = vec![];
     let mut junk = vec![];
@@ -224,6 +248,10 @@ pub fn parse_symbols(text: &str) -> (Vec<(String, u64)>, Vec<String>) {
             continue;
         };
         let val = trim_ascii(val);
+        if val.matches('-').count() == 1 {
+            // a negative value: read by parse_negative_symbols
+            continue;
+        }
         let parsed = match val.strip_prefix("0x") {
             Some(h) => u64::from_str_radix(h, 16).ok(),
             None => val.parse::<u64>().ok(),
